@@ -211,8 +211,6 @@ def record(check, n, seed):
         if rng.random() < 0.2:                       # the same Match object on two or three targets in a row
             ts += [G.mutate(rng, t) if rng.random() < 0.6 else G.rand_tree(rng, 2) for _ in range(rng.randint(1, 2))]
             kinds['reused'] = kinds.get('reused', 0) + 1
-        if G.has_empty_alts(p):
-            ts = [G.plainify(x) for x in ts]         # (see assumptions: empty list / set pattern x falsy non-empty container)
         inputs.append((p, ts, kind))
     rows = [r for rs in B.pmap(record_seq, [(B.normalize(p), ts, how) for p, ts, how in inputs]) for r in rs][:n]
     rejects = vlib.validate_rows(check, 'Trace_C09', rows, 'random-patterns', chunk=4000)
@@ -337,9 +335,7 @@ def main(tier, seed):
         'iterated, the documentation does not say which failure is reported: any of their classes is permitted; cases '
         'where that order decides between a GlomError and a foreign error are enumerated but not compared',
         'results are compared with == (the property says "equal"), not by class of the rebuilt containers',
-        'an empty list / set pattern is not paired with a non-empty container whose bool() is False (Match([]) on such '
-        'a list raises UnboundLocalError instead of MatchError: reported, decision pending); values whose == raises only '
-        'as whole targets; values == to everything not as dict keys / set elements',
+        'values whose == raises occur only as whole targets; values == to everything not as dict keys / set elements',
         'defaults that are instances of dict / list subclasses (OrderedDict ...) are outside the universe: argument mode '
         'rebuilds exact builtin containers only, by design',
         'alternatives of set / frozenset patterns are hashable leaves; no floats, bytes or user classes',
